@@ -109,7 +109,7 @@ func (e *eventV2) Redact() {
 		panic(fmt.Errorf("gomatrixserverlib: invalid event %v", err))
 	}
 	var res eventV2
-	err = json.Unmarshal(eventJSON, &res)
+	err = unmarshalExact(eventJSON, &res)
 	if err != nil {
 		panic(fmt.Errorf("gomatrixserverlib: Redact failed %v", err))
 	}
@@ -154,7 +154,7 @@ func newEventFromUntrustedJSONV2(eventJSON []byte, roomVersion IRoomVersion) (PD
 		}
 	}
 
-	if err = json.Unmarshal(eventJSON, res); err != nil {
+	if err = unmarshalExact(eventJSON, res); err != nil {
 		return nil, err
 	}
 
@@ -291,7 +291,7 @@ func CheckFields(input PDU) error { // nolint: gocyclo
 
 func newEventFromTrustedJSONV2(eventJSON []byte, redacted bool, roomVersion IRoomVersion) (PDU, error) {
 	res := eventV2{}
-	if err := json.Unmarshal(eventJSON, &res); err != nil {
+	if err := unmarshalExact(eventJSON, &res); err != nil {
 		return nil, err
 	}
 
@@ -310,7 +310,7 @@ func newEventFromTrustedJSONV2(eventJSON []byte, redacted bool, roomVersion IRoo
 
 func newEventFromTrustedJSONWithEventIDV2(eventID string, eventJSON []byte, redacted bool, roomVersion IRoomVersion) (PDU, error) {
 	res := &eventV2{}
-	if err := json.Unmarshal(eventJSON, res); err != nil {
+	if err := unmarshalExact(eventJSON, res); err != nil {
 		return nil, err
 	}
 
